@@ -26,7 +26,7 @@ def incremental(pid, tier, replay):
     q = tier == "quick"
     design = None
     if pid == "C03":
-        design = dict(K=1 if q else 3, consts={"MaxInv": 2 if q else 3, "MaxEnv": 1 if q else 2, "MaxClock": 40, "Js": "{1, 2}", "Ks": "{1}", "Crashes": "FALSE", "Toks": "{99}"},
+        design = dict(K=1 if q else 3, consts={"MaxInv": 2 if q else 3, "MaxEnv": 1 if q else 2, "MaxClock": 40, "Js": "{1, 2}", "Ks": "{1}", "Crashes": "FALSE", "Toks": "{99}", "Prio": "FALSE"},
                       invariants=["NoStale", "Minimal", "SecondIsNoop"], timeout=70 if q else 2400, ngraphs=6 if q else None)
     # the same monitors on the real binary and the real file system (RealDiskInterface: stat, mkdir, unlink, real mtimes)
     h2 = dict(fams=[dict(fam="inc", K=2 if q else 10, CH=3 if q else 6), dict(fam="restat", K=2 if q else 20, CH=2 if q else 4)], limit=90 if q else 1500, maxruns=2)
@@ -40,7 +40,7 @@ def ordering(pid, tier, replay):
     fams = _fams([dict(fam="sched", K=8, CH=1), dict(fam="inc", K=3, CH=3), dict(fam="dyn", K=1, CH=3), dict(fam="pools", K=1, CH=1), dict(fam="restat", K=6, CH=3), dict(fam="twin", K=1, CH=1)],
                  [dict(fam="sched", K=81, CH=1), dict(fam="inc", K=30, CH=10), dict(fam="dyn", K=1, CH=30), dict(fam="pools", K=8, CH=1), dict(fam="rand", K=100, CH=4)], tier)
     q = tier == "quick"
-    design = dict(K=1 if q else 3, consts={"MaxInv": 1 if q else 2, "MaxEnv": 1, "MaxClock": 40, "Js": "{1, 2, 3}", "Ks": "{1, 0}", "Crashes": "FALSE", "Toks": "{99}"},
+    design = dict(K=1 if q else 3, consts={"MaxInv": 1 if q else 2, "MaxEnv": 1, "MaxClock": 40, "Js": "{1, 2, 3}", "Ks": "{1, 0}", "Crashes": "FALSE", "Toks": "{99}", "Prio": "FALSE"},
                   invariants=["Ordered", "Limits"], timeout=60 if q else 2400, ngraphs=10 if q else None)
     return engine.engine_check(pid, fams, tier, maxruns=64 if tier == "quick" else 2000, design=design)
 
@@ -60,7 +60,7 @@ def failures(pid, tier, replay):
         return s
     h2 = dict(fams=[dict(fam="fail", K=2, CH=2, mut=codes)], limit=120 if tier == "quick" else 1500, maxruns=3)
     q = tier == "quick"
-    design = dict(K=1 if q else 3, consts={"MaxInv": 1 if q else 2, "MaxEnv": 1, "MaxClock": 40, "Js": "{1, 2}", "Ks": "{1, 2, 0}", "Crashes": "FALSE", "Toks": "{99}"},
+    design = dict(K=1 if q else 3, consts={"MaxInv": 1 if q else 2, "MaxEnv": 1, "MaxClock": 40, "Js": "{1, 2}", "Ks": "{1, 2, 0}", "Crashes": "FALSE", "Toks": "{99}", "Prio": "FALSE"},
                   invariants=["Contained", "Limits"], timeout=60 if q else 2400, ngraphs=8 if q else None)
     return engine.engine_check(pid, fams, tier, maxruns=32 if tier == "quick" else 500, h2=h2, design=design)
 
@@ -538,7 +538,7 @@ def limits(pid, tier, replay):
     # design stage: pool graphs, -j 1..3 or a jobserver pool of 0..3 tokens, -k 1/2/unlimited, every completion and failure order of
     # one invocation, exhaustively; invariants Limits (-j / tokens held, pool depths, at most once, never 'stuck', every token back at
     # exit) and NoIdle, liveness Termination under FairSpec
-    design = dict(K=2 if q else 8, consts={"MaxInv": 1, "MaxEnv": 0, "MaxClock": 80, "Js": "{1, 2, 3}", "Ks": "{1, 2, 0}", "Crashes": "FALSE", "Toks": "{99, 0, 2}" if q else "{99, 0, 1, 2, 3}"},
+    design = dict(K=2 if q else 8, consts={"MaxInv": 1, "MaxEnv": 0, "MaxClock": 80, "Js": "{1, 2, 3}", "Ks": "{1, 2, 0}", "Crashes": "FALSE", "Toks": "{99, 0, 2}" if q else "{99, 0, 1, 2, 3}", "Prio": "TRUE"},
                   invariants=["Limits", "NoIdle"], properties=["Termination"], timeout=300 if q else 3000, fam="mcpools", workers=8)
     def teardown(s):
         """Real binary, jobserver, a build torn down while finished commands are not yet reaped: the dyndep file produced during
@@ -597,7 +597,7 @@ def crashes(pid, tier, replay):
     # design stage: NinjaImplMC with the Crash action (ninja dies at any point of a build; running commands complete as orphans
     # or not; one command may have its build-log record but not yet its deps-log record), then further invocations:
     # invariants Recovers / NoStale (a later successful build leaves the needed closure as a clean build would)
-    design = dict(K=1 if q else 3, consts={"MaxInv": 2 if q else 3, "MaxEnv": 0 if q else 1, "MaxClock": 60, "Js": "{1, 2}", "Ks": "{1}", "Crashes": "TRUE", "Toks": "{99}"},
+    design = dict(K=1 if q else 3, consts={"MaxInv": 2 if q else 3, "MaxEnv": 0 if q else 1, "MaxClock": 60, "Js": "{1, 2}", "Ks": "{1}", "Crashes": "TRUE", "Toks": "{99}", "Prio": "FALSE"},
                   invariants=["Recovers", "NoStale", "Limits"], timeout=200 if q else 3000, ngraphs=6 if q else None, workers=12)
     return engine.engine_check(pid, fams, tier, maxruns=12 if tier == "quick" else 100, level="fault_enumeration", h2=h2, design=design)
 
